@@ -20,6 +20,7 @@ import (
 	"github.com/cosmos/cosmos-sdk/client"
 
 	rpctypes "github.com/EscanBE/evermint/v12/rpc/types"
+	"github.com/EscanBE/evermint/v12/utils/verifhook"
 	evmtypes "github.com/EscanBE/evermint/v12/x/evm/types"
 )
 
@@ -102,16 +103,19 @@ func (api *PublicFilterAPI) timeoutLoop() {
 	for {
 		<-ticker.C
 		api.filtersMu.Lock()
+		verifhook.At("timeoutLoop", "locked")
 		// #nosec G705
 		for id, f := range api.filters {
 			select {
 			case <-f.deadline.C:
+				verifhook.At("timeoutLoop", "expire", id)
 				f.s.Unsubscribe(api.events)
 				delete(api.filters, id)
 			default:
 				continue
 			}
 		}
+		verifhook.At("timeoutLoop", "unlock")
 		api.filtersMu.Unlock()
 	}
 }
@@ -126,6 +130,8 @@ func (api *PublicFilterAPI) timeoutLoop() {
 func (api *PublicFilterAPI) NewPendingTransactionFilter() rpc.ID {
 	api.filtersMu.Lock()
 	defer api.filtersMu.Unlock()
+	verifhook.At("api", "new.locked")
+	defer verifhook.At("api", "new.unlock")
 
 	if len(api.filters) >= int(api.backend.RPCFilterCap()) {
 		return rpc.ID("error creating pending tx filter: max limit reached")
@@ -143,6 +149,7 @@ func (api *PublicFilterAPI) NewPendingTransactionFilter() rpc.ID {
 		hashes:   make([]common.Hash, 0),
 		s:        pendingTxSub,
 	}
+	verifhook.At("api", "new.added", pendingTxSub.ID())
 
 	go func(txsCh <-chan cmtrpctypes.ResultEvent, errCh <-chan error) {
 		defer cancelSubs()
@@ -150,8 +157,10 @@ func (api *PublicFilterAPI) NewPendingTransactionFilter() rpc.ID {
 		for {
 			select {
 			case ev, ok := <-txsCh:
+				verifhook.At("consumer", "recv", pendingTxSub.ID(), ok)
 				if !ok {
 					api.filtersMu.Lock()
+					verifhook.At("consumer", "closed", pendingTxSub.ID())
 					delete(api.filters, pendingTxSub.ID())
 					api.filtersMu.Unlock()
 					return
@@ -170,6 +179,7 @@ func (api *PublicFilterAPI) NewPendingTransactionFilter() rpc.ID {
 				}
 
 				api.filtersMu.Lock()
+				verifhook.At("consumer", "ev", pendingTxSub.ID())
 				if f, found := api.filters[pendingTxSub.ID()]; found {
 					ethTx, ok := tx.GetMsgs()[0].(*evmtypes.MsgEthereumTx)
 					if ok {
@@ -178,7 +188,9 @@ func (api *PublicFilterAPI) NewPendingTransactionFilter() rpc.ID {
 				}
 				api.filtersMu.Unlock()
 			case <-errCh:
+				verifhook.At("consumer", "recv.err", pendingTxSub.ID())
 				api.filtersMu.Lock()
+				verifhook.At("consumer", "err", pendingTxSub.ID())
 				delete(api.filters, pendingTxSub.ID())
 				api.filtersMu.Unlock()
 			}
@@ -257,6 +269,8 @@ func (api *PublicFilterAPI) NewPendingTransactions(ctx context.Context) (*rpc.Su
 func (api *PublicFilterAPI) NewBlockFilter() rpc.ID {
 	api.filtersMu.Lock()
 	defer api.filtersMu.Unlock()
+	verifhook.At("api", "new.locked")
+	defer verifhook.At("api", "new.unlock")
 
 	if len(api.filters) >= int(api.backend.RPCFilterCap()) {
 		return rpc.ID("error creating block filter: max limit reached")
@@ -269,6 +283,7 @@ func (api *PublicFilterAPI) NewBlockFilter() rpc.ID {
 	}
 
 	api.filters[headerSub.ID()] = &filter{typ: filters.BlocksSubscription, deadline: time.NewTimer(deadline), hashes: []common.Hash{}, s: headerSub}
+	verifhook.At("api", "new.added", headerSub.ID())
 
 	go func(headersCh <-chan cmtrpctypes.ResultEvent, errCh <-chan error) {
 		defer cancelSubs()
@@ -276,8 +291,10 @@ func (api *PublicFilterAPI) NewBlockFilter() rpc.ID {
 		for {
 			select {
 			case ev, ok := <-headersCh:
+				verifhook.At("consumer", "recv", headerSub.ID(), ok)
 				if !ok {
 					api.filtersMu.Lock()
+					verifhook.At("consumer", "closed", headerSub.ID())
 					delete(api.filters, headerSub.ID())
 					api.filtersMu.Unlock()
 					return
@@ -290,12 +307,15 @@ func (api *PublicFilterAPI) NewBlockFilter() rpc.ID {
 				}
 
 				api.filtersMu.Lock()
+				verifhook.At("consumer", "ev", headerSub.ID())
 				if f, found := api.filters[headerSub.ID()]; found {
 					f.hashes = append(f.hashes, common.BytesToHash(data.Header.Hash()))
 				}
 				api.filtersMu.Unlock()
 			case <-errCh:
+				verifhook.At("consumer", "recv.err", headerSub.ID())
 				api.filtersMu.Lock()
+				verifhook.At("consumer", "err", headerSub.ID())
 				delete(api.filters, headerSub.ID())
 				api.filtersMu.Unlock()
 				return
@@ -563,6 +583,7 @@ func (api *PublicFilterAPI) UninstallFilter(id rpc.ID) bool {
 	if found {
 		delete(api.filters, id)
 	}
+	verifhook.At("api", "uf.locked", id, found)
 	api.filtersMu.Unlock()
 
 	if !found {
@@ -624,6 +645,8 @@ func (api *PublicFilterAPI) GetFilterLogs(ctx context.Context, id rpc.ID) ([]*et
 func (api *PublicFilterAPI) GetFilterChanges(id rpc.ID) (interface{}, error) {
 	api.filtersMu.Lock()
 	defer api.filtersMu.Unlock()
+	verifhook.At("api", "gfc.locked", id)
+	defer verifhook.At("api", "gfc.unlock", id)
 
 	f, found := api.filters[id]
 	if !found {
@@ -633,6 +656,7 @@ func (api *PublicFilterAPI) GetFilterChanges(id rpc.ID) (interface{}, error) {
 	if !f.deadline.Stop() {
 		// timer expired but filter is not yet removed in timeout loop
 		// receive timer value and reset timer
+		verifhook.At("api", "gfc.drain", id)
 		<-f.deadline.C
 	}
 	f.deadline.Reset(deadline)
